@@ -66,6 +66,13 @@ func (c *engineCtx) planGroup(id string, step int, sol nextroute.Solution, group
 	var moves nextroute.SolutionMoves
 	off := 3
 	for _, mu := range group.SolutionPlanUnits() {
+		if mu.IsPlanned() {
+			// a half planned group (a member still on a route): no units move can be built
+			fmt.Fprintf(out, "%s %d result noop\n", id, step)
+			return
+		}
+	}
+	for _, mu := range group.SolutionPlanUnits() {
 		member, ok := mu.(nextroute.SolutionPlanStopsUnit)
 		if !ok {
 			fmt.Fprintf(out, "%s %d result noop\n", id, step)
@@ -187,13 +194,14 @@ func unitKey(u nextroute.ModelPlanUnit) int {
 		}
 		return m
 	case nextroute.ModelPlanUnitsUnit:
+		// units of units: 1000 + smallest stop (a member listed on its own keeps its own key)
 		m := math.MaxInt
 		for _, c := range t.PlanUnits() {
-			if k := unitKey(c); k < m {
+			if k := unitKey(c) % 1000; k < m {
 				m = k
 			}
 		}
-		return m
+		return 1000 + m
 	}
 	return -1
 }
